@@ -41,7 +41,7 @@ PROJECT_COPY = [False]      # whether the project file sets `copy_subdir: shared
 
 def budget(tier):
     if tier == "quick":
-        return {"examples": 640, "shrink_cap_s": 60}
+        return {"examples": 480, "shrink_cap_s": 60}
     return {"examples": 6400, "shrink_cap_s": 280, "wall_cap_s": 3300}
 
 
@@ -77,6 +77,8 @@ def gen_dir(ch, depth, counter, top=False):
                 idx["missing"] = "ghost.md"
                 idx["ordered"].insert(ch.int(len(idx["ordered"]) + 1), "ghost.md")
         d["index"] = idx
+    if not (d["index"] or d["files"] or d["other"] or d["copydirs"]) and not any(True for _ in d["dirs"]):
+        d["other"].append("readme.txt")      # (every generated directory exists on disk)
     return d
 
 
